@@ -500,6 +500,12 @@ def _table():
     _add("Dropout", "xrt", F_KINDS, "=", ["P", RT, TM], roles=["ratio", "training"], attrs={"seed": 1})
     _add("Dropout", "xrt2", F_KINDS, "=", ["P", RT, TM], roles=["ratio", "training"], attrs={"seed": 1}, nout=2)
     _add("Dropout", "x_t", F_KINDS, "=", ["P", None, TM], roles=["training"], attrs={"seed": 1})
+    # training mode ON with a non-zero ratio as the DEFAULT, so that one deviation (the source of `training`: graph
+    # input / overridable initializer) reaches "training_mode only known at run time and true" (a seeded defect)
+    RT_ON = [f(0.5), f(0.0)]
+    TM_ON = [T("b", True), T("b", False)]
+    _add("Dropout", "xrt_on", F_KINDS, "=", ["P", RT_ON, TM_ON], roles=["ratio", "training"], attrs={"seed": 1})
+    _add("Dropout", "xrt2_on", F_KINDS, "=", ["P", RT_ON, TM_ON], roles=["ratio", "training"], attrs={"seed": 1}, nout=2)
     _add("Dropout", "attr", F_KINDS, "=", ["P"], attrs={"ratio": 0.0}, opsets=(10,))
     _add("Dropout", "attr2", F_KINDS, "=", ["P"], attrs={"ratio": 0.5}, nout=2, opsets=(10,))
     # --- Expand / Reshape / Squeeze / Unsqueeze / Transpose / Flatten ----------------------------------
